@@ -104,7 +104,7 @@ static int replay_file(const char* path, const std::string& set, int tier) {
         all += "--- wire ---\n"; for (auto& e : w.broker->wire) { char b[64]; snprintf(b, sizeof b, "[%9.3f] ", (e.t - vclock::BASE_NS) / 1e9); all += b + std::string(e.c2b ? "C->B " : "B->C ") + "conn" + std::to_string(e.conn) + " " + (e.malformed ? "MALFORMED(" + e.why + ") " + ref::hex(e.raw) : ref::describe(e.pkt)) + "\n"; }
         all += "--- ops ---\n"; for (auto& o : w.ops) all += "op" + std::to_string(o.id) + " kind=" + std::to_string(o.kind) + " tag=" + std::to_string(o.tag) + " completions=" + std::to_string(o.completions) + " ec=" + (o.ec ? o.ec.message() : "ok") + " rc=" + std::to_string(o.rc) + "\n";
         all += "--- violations ---\n"; for (auto& v : w.vios) all += v.sig + ": " + v.detail + "\n"; if (w.capped) all += "CAP: " + w.cap_reason + "\n";
-        if (round == 0) { first = all; printf("%s", all.c_str()); rc = w.vios.empty() ? 0 : 1; }
+        if (round == 0) { first = all; printf("%s", all.c_str()); rc = w.vios.empty() ? 0 : 1; if (w.capped && w.cap_reason.rfind("REPLAY", 0) == 0) { printf("the recorded schedule does not fit this tree / scenario set any more\n"); return 2; } }
         else if (all != first) { printf("NON-DETERMINISTIC REPLAY: second run differs\n"); return 2; }
     }
     printf("replayed twice, identical traces\n");
